@@ -1,6 +1,8 @@
 package main
 
 import (
+	"fmt"
+	"go/constant"
 	"go/token"
 	"strconv"
 	"go/types"
@@ -133,6 +135,11 @@ func (a *FnA) Sends() []SendSite {
 // a target, return the edges of matching If instructions on which it does.
 // filter (optional) can reject matches based on the bindings.
 func (a *FnA) IfEdges(pattern string, holds bool, filter func(Bind) bool) (edges []Edge, ifs []*ssa.If) {
+	return a.IfEdgesB(pattern, holds, nil, filter)
+}
+
+// IfEdgesB is IfEdges with pattern variables bound in advance to given shapes.
+func (a *FnA) IfEdgesB(pattern string, holds bool, pre Bind, filter func(Bind) bool) (edges []Edge, ifs []*ssa.If) {
 	pat := NormPred(ParsePattern(pattern))
 	for _, b := range a.fn.Blocks {
 		if len(b.Instrs) == 0 {
@@ -144,6 +151,9 @@ func (a *FnA) IfEdges(pattern string, holds bool, filter func(Bind) bool) (edges
 		}
 		cond := NormPred(a.sh.Of(ifi.Cond))
 		bind := Bind{}
+		for k, v := range pre {
+			bind[k] = v
+		}
 		same, ok := MatchPred(pat, cond, bind)
 		if !ok {
 			continue
@@ -164,19 +174,63 @@ func (a *FnA) IfEdges(pattern string, holds bool, filter func(Bind) bool) (edges
 }
 
 // reach computes the blocks reachable from start without using removed edges.
+// It is path-sensitive for boolean flags: when a block ends in an If whose
+// condition is (the negation of) a phi of boolean constants defined in that
+// same block, only the successor selected by the constant flowing in from the
+// predecessor just traversed is followed.
 func reach(start *ssa.BasicBlock, removed map[Edge]bool) map[*ssa.BasicBlock]bool {
+	type st struct {
+		b    *ssa.BasicBlock
+		pred *ssa.BasicBlock
+	}
 	seen := map[*ssa.BasicBlock]bool{start: true}
-	work := []*ssa.BasicBlock{start}
+	seenSt := map[st]bool{{start, nil}: true}
+	work := []st{{start, nil}}
 	for len(work) > 0 {
-		b := work[len(work)-1]
+		cur := work[len(work)-1]
 		work = work[:len(work)-1]
+		b := cur.b
+		only := -1
+		if cur.pred != nil && len(b.Instrs) > 0 {
+			if ifi, ok := b.Instrs[len(b.Instrs)-1].(*ssa.If); ok {
+				neg := false
+				c := ifi.Cond
+				for {
+					if u, ok := c.(*ssa.UnOp); ok && u.Op == token.NOT {
+						neg = !neg
+						c = u.X
+						continue
+					}
+					break
+				}
+				if phi, ok := c.(*ssa.Phi); ok && phi.Block() == b {
+					for k, p := range b.Preds {
+						if p == cur.pred {
+							if cst, ok := phi.Edges[k].(*ssa.Const); ok && cst.Value != nil && cst.Value.Kind() == constant.Bool {
+								v := constant.BoolVal(cst.Value) != neg
+								if v {
+									only = 0
+								} else {
+									only = 1
+								}
+							}
+						}
+					}
+				}
+			}
+		}
 		for k, s := range b.Succs {
+			if only >= 0 && k != only {
+				continue
+			}
 			if removed[Edge{b, k}] {
 				continue
 			}
-			if !seen[s] {
+			n := st{s, b}
+			if !seenSt[n] {
+				seenSt[n] = true
 				seen[s] = true
-				work = append(work, s)
+				work = append(work, n)
 			}
 		}
 	}
@@ -835,4 +889,45 @@ type Ord map[string]int
 func (o Ord) Next(prefix string) string {
 	o[prefix]++
 	return prefix + strconv.Itoa(o[prefix])
+}
+
+// G is one required guard: on every path to the target the predicate Pattern
+// evaluates to Holds. Alt lists alternative (pattern, holds) pairs that are
+// equally acceptable on a path (bypass conditions).
+type G struct {
+	Name    string
+	Pattern string
+	Holds   bool
+	Alt     []G
+	Filter  func(Bind) bool
+}
+
+// RequireGuards checks each guard for the target and records one obligation per guard.
+func (r *Run) RequireGuards(a *FnA, rule, con string, target ssa.Instruction, guards ...G) bool {
+	all := true
+	for _, g := range guards {
+		sets := [][]Edge{}
+		e, _ := a.IfEdges(g.Pattern, g.Holds, g.Filter)
+		n := len(e)
+		sets = append(sets, e)
+		for _, alt := range g.Alt {
+			ae, _ := a.IfEdges(alt.Pattern, alt.Holds, alt.Filter)
+			sets = append(sets, ae)
+		}
+		ok := n > 0 && a.EveryPathTakes(target, sets...)
+		want := g.Pattern
+		if !g.Holds {
+			want = "not " + want
+		}
+		detail := fmt.Sprintf("%s: every path to the target must establish %s", g.Name, want)
+		if n == 0 {
+			detail += " — no such test exists in " + FuncName(a.fn)
+		} else if !ok {
+			detail += " — the target is reachable without passing it"
+		}
+		if !r.Check(ok, rule, con+"("+g.Name+")", r.W.InstrPos(target), detail) {
+			all = false
+		}
+	}
+	return all
 }
